@@ -358,7 +358,7 @@ class Path:
         for a in aux:
             s2.add(a)
         s2.add(neg)
-        res, detail = cvc5_check(s2, timeout_s=max(5, self.prove_timeout_ms // 2000))
+        res, detail = cvc5_check(s2, timeout_s=max(10, self.prove_timeout_ms // 1000))
         dt2 = time.time() - t0
         self.solver_seconds += dt2
         if res == "unsat":
@@ -382,7 +382,7 @@ class Path:
                 self.solver_seconds += time.time() - t1
                 return Obligation(name, "proved", dt + dt2 + time.time() - t1, "z3+aux(patience)", level=level)
             if r3 == z3.unknown:
-                res, detail = cvc5_check(s2, timeout_s=max(15, 3 * self.prove_timeout_ms // 2000))
+                res, detail = cvc5_check(s2, timeout_s=max(30, 3 * self.prove_timeout_ms // 1000))
                 self.solver_seconds += time.time() - t1
                 if res == "unsat":
                     return Obligation(name, "proved", dt + dt2 + time.time() - t1, "cvc5(patience)", level=level)
